@@ -41,6 +41,17 @@ class P:
                 items.append(("un", p, ("post", ("post", A, postfix[0]), q)))
                 items.append(("post", ("un", p, ("post", A, postfix[0])), q))
                 items.append(("post", ("post", ("un", p, A), postfix[0]), q))
+        # `x not OP y` nested inside the right operand of another `x not OP y` (in a list, a call, parentheses), the two
+        # operators on different levels and an operator of a third level behind: every `not` looks at ITS operator
+        reps = ["=", "||", "&&", "==", "|", "^", "&", "<<", "+", "*", "in"]
+        for o1 in reps:
+            for o2 in reps:
+                for mid in ("+", "==", "&&", "*", "|"):
+                    inner = ("nbin", o2, C, ("bin", mid, A, B))
+                    inner2 = ("bin", mid, ("nbin", o2, C, A), B)
+                    for wrap in (lambda e: ("list", [e]), lambda e: ("call", "f", [A, e]), lambda e: e):
+                        items.append(("bin", "&&", A, ("nbin", o1, B, wrap(inner))))
+                        if tier != "quick" or o1 < o2: items.append(("bin", "||", ("nbin", o1, B, wrap(inner2)), A))
         fixed = [(("PARSE:" + hx(progs.render_min(t, PT))), ("tree", progs.to_proto(t))) for t in items]
         # the same trees with one redundant pair of parentheses around every operand
         fixed += [(("PARSE:" + hx(progs.render_min(t, PT, rng, 1.0))), ("tree", progs.to_proto(t))) for t in items[:: (5 if tier == "quick" else 1)]]
